@@ -497,6 +497,129 @@ func runC11(c *Ctx) {
 	}
 	c.Floor(r7, 5)
 
+	// An object ID is compared with ==, Equal and as a map key over its whole 32-byte array. ObjectID.Write copies as
+	// many bytes as that array holds, so the bytes handed to it must be exactly one ID: an open-ended slice of a table
+	// of names (names[off:]) leaves the following name's bytes behind a SHA-1 ID, which then prints correctly and is
+	// unequal to the same ID obtained on any other read path.
+	const r8 = "id-from-exact-bytes"
+	n8 := 0
+	for _, pk := range p.Pkgs {
+		if !production(pk) {
+			continue
+		}
+		pinfo := pk.TypesInfo
+		for _, fi := range p.FuncsIn(shortPkg(pk.PkgPath)) {
+			if fi.Decl.Body == nil || p.isTestFile(fi.Decl.Pos()) {
+				continue
+			}
+			k := 0
+			walkCalls(fi.Decl.Body, true, func(call *ast.CallExpr) {
+				fn := Callee(pinfo, call)
+				if fn == nil || fn.Name() != "Write" || len(call.Args) != 1 {
+					return
+				}
+				if tn := recvTypeName(fn); tn == nil || tn.Name() != "ObjectID" || tn.Pkg() == nil || shortPkg(tn.Pkg().Path()) != "plumbing" {
+					return
+				}
+				k++
+				n8++
+				c.Analysed(fi)
+				sl, isSlice := unparen(call.Args[0]).(*ast.SliceExpr)
+				bad := isSlice && sl.High == nil
+				c.Check(!bad, r8, fi.Name()+"->ObjectID.Write"+ifStr(k > 1, "#"+itoa(k)), call.Pos(), orStr(ifStr(bad, "the ID is written from an open-ended slice ("+exprString(call.Args[0])+"): Write copies up to the array's 32 bytes, so a SHA-1 ID keeps 12 bytes of whatever follows and is unequal to the same ID read elsewhere"),
+					"the ID is written from a value of exactly one ID's length"))
+			})
+		}
+	}
+	c.Floor(r8, 4)
+
+	// A set kept in a field of a long-lived reader (a pack, a storage) whose membership test makes a read fail — a
+	// "seen on this chain" guard — must be scoped to the read that fills it: the function that inserts a key removes it
+	// again (delete, usually deferred) before it returns. If clearing is left to some entry points, every other way into
+	// the read (an iterator that resolves many entries through one reader) accumulates keys and rejects valid data.
+	// Memo tables are not concerned: a hit there returns a value, not an error.
+	const r9 = "rejecting-set-scoped-to-the-read"
+	n9 := 0
+	for _, sp := range []string{"plumbing/format/packfile", "storage/filesystem", "plumbing/format/idxfile"} {
+		spk := p.Pkg(sp)
+		if spk == nil {
+			continue
+		}
+		sinfo := spk.TypesInfo
+		for _, fi := range p.FuncsIn(sp) {
+			if fi.Decl.Body == nil || p.isTestFile(fi.Decl.Pos()) {
+				continue
+			}
+			// field-set lookups whose found-branch returns an error
+			type use struct {
+				field *types.Var
+				pos   token.Pos
+			}
+			var rejecting []use
+			ast.Inspect(fi.Decl.Body, func(n ast.Node) bool {
+				ifs, ok := n.(*ast.IfStmt)
+				if !ok || ifs.Init == nil {
+					return true
+				}
+				as, ok := ifs.Init.(*ast.AssignStmt)
+				if !ok || len(as.Lhs) != 2 || len(as.Rhs) != 1 {
+					return true
+				}
+				ix, ok := unparen(as.Rhs[0]).(*ast.IndexExpr)
+				if !ok {
+					return true
+				}
+				sel, ok := unparen(ix.X).(*ast.SelectorExpr)
+				if !ok {
+					return true
+				}
+				fv, ok := sinfo.Uses[sel.Sel].(*types.Var)
+				if !ok || !fv.IsField() {
+					return true
+				}
+				if _, isMap := fv.Type().Underlying().(*types.Map); !isMap {
+					return true
+				}
+				okVar := objOf(sinfo, as.Lhs[1])
+				if okVar == nil || objOf(sinfo, ifs.Cond) != okVar {
+					return true
+				}
+				// the found-branch returns a non-nil error
+				rej := false
+				for _, st := range ifs.Body.List {
+					if r, ok := st.(*ast.ReturnStmt); ok && len(r.Results) > 0 && !isNil(sinfo, r.Results[len(r.Results)-1]) {
+						if tv := sinfo.Types[r.Results[len(r.Results)-1]]; tv.Type != nil && types.Identical(tv.Type, types.Universe.Lookup("error").Type()) {
+							rej = true
+						}
+					}
+				}
+				if rej {
+					rejecting = append(rejecting, use{fv, ifs.Pos()})
+				}
+				return true
+			})
+			for _, u := range rejecting {
+				n9++
+				c.Analysed(fi)
+				removes := false
+				ast.Inspect(fi.Decl.Body, func(n ast.Node) bool {
+					if call, ok := n.(*ast.CallExpr); ok && (nodeHasBuiltinCall(sinfo, call, "delete") || nodeHasBuiltinCall(sinfo, call, "clear")) && len(call.Args) >= 1 {
+						if sel, ok := unparen(call.Args[0]).(*ast.SelectorExpr); ok && sinfo.Uses[sel.Sel] == types.Object(u.field) {
+							removes = true
+						}
+					}
+					return true
+				})
+				c.Check(removes, r9, fi.Name()+":"+u.field.Name(), u.pos, orStr(ifStr(!removes, "membership in the field set `"+u.field.Name()+"` makes this read fail, and the function never removes what it inserts: keys outlive the read that added them, so a later, unrelated read through the same reader (an iteration over all entries) is rejected although the data is valid"),
+					"what the function inserts into the rejecting set it removes again"))
+			}
+		}
+	}
+	if n9 == 0 {
+		c.Hold(r9, "no-rejecting-field-set", 0, "no read path keeps a set in a struct field whose membership test returns an error")
+	}
+	c.Floor(r9, 1)
+
 	const r3 = "reader-bounded-by-size"
 	if fi := c.MustFunc(r3, "plumbing/format/packfile.(*FSObject).Reader"); fi != nil {
 		info := fi.Pkg.TypesInfo
